@@ -77,6 +77,8 @@ type Downstream struct {
 	connStatus      *connStatus
 	connOutages     uint64 // connStatus.Outages() of the wire connection the stream is bound to
 	eventDispatcher *eventDispatcher
+
+	closedNotified sync.Once // the closed event is delivered once, whichever close path gets there first
 }
 
 // Stateは、Downstreamが保持している内部の状態を返却します。
@@ -145,11 +147,13 @@ func (d *Downstream) closeWithError(ctx context.Context, cause error) (err error
 		}
 	}
 
-	defer d.eventDispatcher.addHandler(func() {
-		d.Config.ClosedEventHandler.OnDownstreamClosed(&DownstreamClosedEvent{
-			Config: d.Config,
-			State:  *d.State(),
-			Err:    cause,
+	defer d.closedNotified.Do(func() {
+		d.eventDispatcher.addHandler(func() {
+			d.Config.ClosedEventHandler.OnDownstreamClosed(&DownstreamClosedEvent{
+				Config: d.Config,
+				State:  *d.State(),
+				Err:    cause,
+			})
 		})
 	})
 
@@ -162,11 +166,13 @@ func (d *Downstream) notifyClosedWithError(cause error) {
 	if cause == nil {
 		return
 	}
-	d.eventDispatcher.addHandler(func() {
-		d.Config.ClosedEventHandler.OnDownstreamClosed(&DownstreamClosedEvent{
-			Config: d.Config,
-			State:  *d.State(),
-			Err:    cause,
+	d.closedNotified.Do(func() {
+		d.eventDispatcher.addHandler(func() {
+			d.Config.ClosedEventHandler.OnDownstreamClosed(&DownstreamClosedEvent{
+				Config: d.Config,
+				State:  *d.State(),
+				Err:    cause,
+			})
 		})
 	})
 }
